@@ -1657,7 +1657,10 @@ impl AsExpandedName for XmlAttr {
                 .unwrap_or("xmlns")
                 .to_string();
             let namespaces = XmlElement::from(element).in_scope_namespace()?;
-            if let Some(ns) = namespaces.iter().find(|v| v.node_name() == prefix) {
+            if self.attribute.borrow().prefix().is_none() {
+                // the default namespace applies to element names only: an unprefixed attribute has none.
+                (Some(prefix), None)
+            } else if let Some(ns) = namespaces.iter().find(|v| v.node_name() == prefix) {
                 (Some(prefix), ns.node_value()?)
             } else {
                 (Some(prefix), None)
